@@ -33,6 +33,15 @@ def gt (E : Elem T) (a b : T) : Bool := opGt (E.pcmp a b)
 def ge (E : Elem T) (a b : T) : Bool := opGe (E.pcmp a b)
 def ne (E : Elem T) (a b : T) : Bool := !E.eq a b
 
+/-- `Ord`'s provided methods (core::cmp, Rust 1.95): `max`: `if other < self { self } else { other }`,
+    `min`: `if other < self { other } else { self }`,
+    `clamp`: `assert!(min <= max); if self < min { min } else if self > max { max } else { self }` (`none` = the assertion
+    fails: a panic).  They go through the `PartialOrd` operators, i.e. through `partial_cmp`. -/
+def max (E : Elem T) (a b : T) : T := if E.lt b a then a else b
+def min (E : Elem T) (a b : T) : T := if E.lt b a then b else a
+def clamp (E : Elem T) (x lo hi : T) : Option T :=
+  if E.le lo hi then some (if E.lt x lo then lo else if E.gt x hi then hi else x) else none
+
 /-- What it means for the three traits of a type to form one lawful total order. -/
 structure Lawful (E : Elem T) : Prop where
   pcmp_eq : ∀ a b, E.pcmp a b = some (E.cmp a b)
